@@ -23,7 +23,8 @@ CORPUS = [
     "{{ 1234*5 }}", "{% raw %}", "{% for x in y %}", "{{ config }}", "{{ 7/0 }}", "$user_message", "{$x}", "$bot_message {{ 1234*5 }}",
     'bot say "{{ 1234*5 }}"', "Bot message: \"hi", "user intent: ", "bot intent: bot x\nbot action: y", "\\", "\\n\\\"", "\x00", "é ü 漢字 🙂",
     "# comment", "  ask\nbot inform\n  \"{{ 1234*5 }} $user_message\"", "A" * 10000, "bot inform " * 300, "\"" * 51,
-    "user ask\n  bot inform\n  user ask\n  bot inform", "bot $x", "bot {{x}}", "  express greeting\nbot express greeting", "1/0", "[1, 2", "{'a': ", "__import__('os')", "[...]", "b'bytes'", "1j", "{1, 2}", "(1, 2)", "{1: 'a'}", "-5", "1e400",
+    "user ask\n  bot inform\n  user ask\n  bot inform", "bot $x", "bot {{x}}", "  express greeting\nbot express greeting", "1/0", "[1, 2", "{'a': ", "__import__('os')", "bot a\nbot b\n$x = 1/0", "$x = 1/0", "bot a\nbot b\n  $y = (((", "bot a\nexecute nothing_registered", "bot a\nbot b\nelse",
+    "'{$v} {{ 1234*5 }}'", "'$user_message {$x}'", "[...]", "b'bytes'", "1j", "{1, 2}", "(1, 2)", "{1: 'a'}", "-5", "1e400",
 ]
 
 MODES_V1 = {
@@ -95,7 +96,9 @@ def check_reply(turn, hostile_list, user_text):
     out = []
     if turn.exc is not None:
         e = turn.exc
-        out.append((f"generate-raised:{type(e).__name__}", f"{e!r}"))
+        import re as _re
+        head = "-".join(_re.sub(r"[^A-Za-z ]", " ", str(e)).split()[:2])
+        out.append((f"generate-raised:{type(e).__name__}[{head}]", f"{e!r}"))
         return out
     r = turn.reply
     msg = r
